@@ -616,6 +616,96 @@ func TestC12Burst(t *testing.T) {
 	})
 }
 
+// runListBurst: pushers append unique increasing values to one LinkedList while a
+// single goroutine pops; the list stays short, so pushes and pops keep meeting at the
+// one-element boundary. Oracle without a linearizability search: Pop returns the values
+// of each pusher in increasing order (the list is a FIFO for Push/Pop), nothing twice,
+// nothing invented, and in the end everything that was pushed has been popped.
+func runListBurst(t *testing.T, cs BurstCase) *ev.Verdict {
+	v := &ev.Verdict{}
+	cj, _ := json.Marshal(cs)
+	v.Canon = string(cj)
+	sched.Guard(func() {
+		l := linkedlist.NewLinkedList[int]()
+		var wg sync.WaitGroup
+		var start, stop atomic.Bool
+		per := 0
+		for _, b := range cs.Bursts {
+			per += b
+		}
+		for g := 0; g < cs.Pushers; g++ {
+			wg.Add(1)
+			go func() {
+				defer wg.Done()
+				for !start.Load() {
+				}
+				val := g*1000000 + 1
+				for _, b := range cs.Bursts {
+					for i := 0; i < b; i++ {
+						l.Push(val)
+						val++
+					}
+					runtime.Gosched()
+				}
+			}()
+		}
+		last := make([]int, cs.Pushers)
+		popped := 0
+		var popErr string
+		popperDone := make(chan struct{})
+		go func() {
+			defer close(popperDone)
+			for !start.Load() {
+			}
+			for {
+				finished := stop.Load()
+				x, ok := l.Pop()
+				if !ok {
+					if finished {
+						return
+					}
+					continue
+				}
+				g, i := x/1000000, x%1000000
+				switch {
+				case g < 0 || g >= cs.Pushers || i < 1 || i > per:
+					if popErr == "" {
+						popErr = fmt.Sprintf("value %d was popped but never pushed", x)
+					}
+				case i <= last[g]:
+					if popErr == "" {
+						popErr = fmt.Sprintf("value #%d of pusher %d was popped after its value #%d (pushed later): not a FIFO, or popped twice", i, g, last[g])
+					}
+				default:
+					last[g] = i
+				}
+				popped++
+			}
+		}()
+		start.Store(true)
+		wg.Wait()
+		stop.Store(true)
+		<-popperDone
+		if popErr != "" {
+			v.Add(P, "list:order", "%s (%d pushers, bursts %v)", popErr, cs.Pushers, cs.Bursts)
+		} else if popped != per*cs.Pushers {
+			v.Add(P, "list:conservation", "%d values pushed, %d popped after the pushers finished and the list was drained (an element was lost)", per*cs.Pushers, popped)
+		}
+	})
+	v.SetNT(P)
+	v.Class("list-burst-pushers-single-popper")
+	return v
+}
+
+func TestC12ListBurst(t *testing.T) {
+	ev.Drive(t, ev.Runner[BurstCase]{
+		Prop: P, ReplayRuns: 200,
+		Rule: "2..8 goroutines Push unique increasing values into one LinkedList in generated bursts with real parallelism while a single goroutine pops until everything is drained (the list keeps crossing the one-element boundary); oracle: each pusher's values come out in increasing order, nothing twice or invented, everything pushed is popped; non-trivial always; distinct by case",
+		Gen:  genBurst,
+		Run:  runListBurst,
+	})
+}
+
 func TestC12Controlled(t *testing.T) {
 	ev.Drive(t, ev.Runner[Case]{
 		Prop: P,
